@@ -562,6 +562,27 @@ impl Builder {
         self.module.entry_points.push(inst);
     }
 
+    /// Tags the parameters of `execution_mode` with the operand kinds the grammar
+    /// lists for it, so that the instruction is the one the parser would deliver.
+    fn execution_mode_params(
+        execution_mode: spirv::ExecutionMode,
+        params: &[u32],
+    ) -> Vec<dr::Operand> {
+        let kinds = dr::Operand::ExecutionMode(execution_mode).additional_operands();
+        params
+            .iter()
+            .enumerate()
+            .map(|(i, &v)| match kinds.get(i).map(|k| k.kind) {
+                Some(crate::grammar::OperandKind::IdRef) => dr::Operand::IdRef(v),
+                Some(crate::grammar::OperandKind::NamedMaximumNumberOfRegisters) => {
+                    spirv::NamedMaximumNumberOfRegisters::from_u32(v)
+                        .map_or(dr::Operand::LiteralBit32(v), |e| e.into())
+                }
+                _ => dr::Operand::LiteralBit32(v),
+            })
+            .collect()
+    }
+
     /// Appends an OpExecutionMode instruction.
     pub fn execution_mode(
         &mut self,
@@ -573,9 +594,7 @@ impl Builder {
             dr::Operand::IdRef(entry_point),
             dr::Operand::ExecutionMode(execution_mode),
         ];
-        for v in params.as_ref() {
-            operands.push(dr::Operand::LiteralBit32(*v));
-        }
+        operands.extend(Self::execution_mode_params(execution_mode, params.as_ref()));
 
         let inst = dr::Instruction::new(spirv::Op::ExecutionMode, None, None, operands);
         self.module.execution_modes.push(inst);
@@ -592,9 +611,7 @@ impl Builder {
             dr::Operand::IdRef(entry_point),
             dr::Operand::ExecutionMode(execution_mode),
         ];
-        for v in params.as_ref() {
-            operands.push(dr::Operand::LiteralBit32(*v));
-        }
+        operands.extend(Self::execution_mode_params(execution_mode, params.as_ref()));
 
         let inst = dr::Instruction::new(spirv::Op::ExecutionModeId, None, None, operands);
         self.module.execution_modes.push(inst);
